@@ -153,6 +153,9 @@ impl Trigger {
     }
 
     pub fn wait_timeout(&self, mut timeout: Duration) -> bool {
+        #[cfg(emit_rs_emit_verif)]
+        crate::verif::point("trigger_wait");
+
         let mut flushed_slot = (self.0).0.lock().unwrap();
         loop {
             // If we flushed then return
